@@ -36,7 +36,10 @@ def model_eng():
         "'[b.xlsx]S'!A4": "=DEC2HEX('[b.xlsx]S'!A1*3)&\"|\"&DEC2OCT('[b.xlsx]S'!A1)", "'[b.xlsx]S'!B1:B2": "='[b.xlsx]S'!A1*{1;2}",
         # wholly constant array formulas entered in ranges larger than their result: padding comes from the array's own fill value
         "'[b.xlsx]S'!D1:F2": "={1,2}", "'[b.xlsx]S'!D4:F4": "=ISNUMBER({1,\"a\"})", "'[b.xlsx]S'!D6:F7": "=ISERROR({1;2})",
-        "'[b.xlsx]S'!H1": "=SUM(IFERROR('[b.xlsx]S'!D1:F2,100))+COUNTIF('[b.xlsx]S'!D4:F4,FALSE)"}}
+        "'[b.xlsx]S'!H1": "=SUM(IFERROR('[b.xlsx]S'!D1:F2,100))+COUNTIF('[b.xlsx]S'!D4:F4,FALSE)",
+        # a formula holding a pre-built operand that is never read before the copy is taken (an undefined name becomes a stored #REF! range)
+        "'[b.xlsx]S'!J1": "='[b.xlsx]S'!A1+'[b.xlsx]'!UNDEFINED_NAME", "'[b.xlsx]S'!J2": "=IFERROR('[b.xlsx]S'!J1,5)&NOSUCHFUNCTION(1)",
+        "'[b.xlsx]S'!J3": "=IFERROR('[b.xlsx]S'!J1,5)+#REF!"}}
 
 
 def circ_dict():
